@@ -9,7 +9,7 @@
 //   CASE <id> <region> <N> <k> <d> <L> <dim> <seed> <intdata>
 //        region: iso isol mds mdsl diff klle kltsa hlle tri cli
 // output: "C <id>" before each case (flushed), then per combination
-//   "R <id> <t> <k> <c> <hash> <entries> <maxabsdiff %a> <maxabsref %a> <nonfinite>"
+//   "R <id> <t> <k> <c> <hash> <entries> <maxabsdiff %a> <maxabsref %a> <nonfinite> <hash of the iteration->thread map>"
 //   and up to three lines "X <id> <t> <k> <c> <index> <ref %a> <val %a>" for differing entries,
 //   "V <id> <n> <n hex doubles>" once per case for small mds / mdsl / cli results (row major),
 //   then "E <id>".
@@ -45,11 +45,17 @@ struct Data
     double at(int i, int c) const { return x[(size_t)i * dim + c]; }
 };
 
+// which thread ran which iteration (only recorded for the regions whose callback's first argument
+// identifies the iteration: every slot is then written by exactly one thread)
+static std::vector<int> g_owner;
+static bool g_track = false;
+
 struct dist_cb
 {
     const Data* D;
     inline ScalarType distance(int a, int b) const
     {
+        if (g_track) g_owner[a] = omp_get_thread_num();
         double s = 0;
         for (int c = 0; c < D->dim; c++)
         {
@@ -180,6 +186,7 @@ static std::vector<double> run_region(const std::string& region, const Data& D, 
     {
         const Data* Dp = &D;
         auto f = [Dp](IndexType a, IndexType b) -> ScalarType {
+            if (g_track) g_owner[a] = omp_get_thread_num();
             dist_cb c{Dp};
             return c.kernel(a, b) + 0.25 * c.distance(a, b);
         };
@@ -243,7 +250,16 @@ int main()
             const Combo& c = combos[ci];
             omp_set_num_threads(c.t);
             omp_set_schedule(c.k == 1 ? omp_sched_static : c.k == 2 ? omp_sched_dynamic : omp_sched_guided, c.c);
+            g_owner.assign(N, -1);
+            g_track = (region == "mds" || region == "mdsl" || region == "diff" || region == "tri" || region == "cli");
             std::vector<double> r = run_region(region, D, k, d, L, seed);
+            g_track = false;
+            uint64_t ah = 1469598103934665603ULL;
+            for (int v : g_owner)
+            {
+                ah ^= (uint64_t)(v + 2);
+                ah *= 1099511628211ULL;
+            }
             if (ci == 0)
             {
                 ref = r;
@@ -279,8 +295,8 @@ int main()
                     if (std::fabs(ref[i]) > maxr) maxr = std::fabs(ref[i]);
                     if (df != 0 && bad.size() < 3) bad.push_back(i);
                 }
-            printf("R %ld %d %d %d %016llx %zu %a %a %ld\n", id, c.t, c.k, c.c, (unsigned long long)fnv(r.data(), r.size()),
-                   r.size(), maxd, maxr, nonfinite);
+            printf("R %ld %d %d %d %016llx %zu %a %a %ld %016llx\n", id, c.t, c.k, c.c,
+                   (unsigned long long)fnv(r.data(), r.size()), r.size(), maxd, maxr, nonfinite, (unsigned long long)ah);
             for (size_t b : bad) printf("X %ld %d %d %d %zu %a %a\n", id, c.t, c.k, c.c, b, ref[b], r[b]);
         }
         printf("E %ld\n", id);
